@@ -1221,6 +1221,7 @@ def make_world_externals(world_ref):
              trace=symaware('trace', alg.jnp_trace), abs=symaware('abs', alg.jnp_abs), log=symaware('log', alg.jnp_log),
              squeeze=symaware('squeeze', alg.jnp_squeeze), expand_dims=symaware('expand_dims', alg.jnp_expand_dims),
              atleast_1d=symaware('atleast_1d', alg.jnp_atleast_1d),
+             atleast_2d=symaware('atleast_2d', alg.jnp_atleast_2d),
              repeat=symaware('repeat', alg.jnp_repeat), tile=symaware('tile', alg.jnp_tile),
              reshape=symaware('reshape', alg.jnp_reshape),
              ones_like=symaware('ones_like', alg.jnp_ones_like), zeros_like=symaware('zeros_like', alg.jnp_zeros_like),
